@@ -266,8 +266,8 @@ func genC02(seed uint64, tier string) *Scenario {
 }
 
 func init() {
-	core.Register("C01", genC01, Run)
-	core.Register("C02", genC02, Run)
+	core.Register("C01we", genC01, Run)
+	core.Register("C02we", genC02, Run)
 }
 
 func simnetFault(kind string, conn int) simnet.Fault { return simnet.Fault{Kind: kind, Conn: conn} }
